@@ -22,7 +22,10 @@ MODEL_OF = {'RetrySpec': 'RetrySpec', 'PoliciesSpec': 'PoliciesSpec', 'PublishSp
             'OnClauseSpec': 'OnClauseSpec', 'TaskDefaultsSpec': 'TaskDefaultsSpec',
             'DirectWorkflowTaskSpec': 'TaskSpec', 'ReverseWorkflowTaskSpec': 'TaskSpec',
             'DirectWorkflowSpec': 'WorkflowSpec', 'ReverseWorkflowSpec': 'WorkflowSpec',
-            'WorkflowListSpec': 'WorkflowListSpec'}
+            'WorkflowListSpec': 'WorkflowListSpec', 'ActionSpec': 'ActionSpec', 'ActionListSpec': 'ActionListSpec',
+            'WorkbookSpec': 'WorkbookSpec'}
+# a model `ok` may be a real definition error: the members go through the graph checks of Model/Lang.lean too
+GRAPH_LATER = ('WorkflowListSpec', 'WorkbookSpec')
 
 
 # ------------------------------------------------------------------ oracle
@@ -139,6 +142,11 @@ def obs_task(t):
     return o
 
 
+def obs_action(a):
+    return {'name': a.get_name(), 'base': a.get_base(), 'base-input': a.get_base_input(), 'input': a.get_input(),
+            'output': a.get_output()}
+
+
 def obs_workflow(w):
     return {'name': w.get_name(), 'type': w.get_type(), 'input': w.get_input(),
             'task-defaults': obs_task_defaults(w.get_task_defaults()),
@@ -161,6 +169,21 @@ def build_real(st, model_cls, v):
         return obs_task_defaults(base.instantiate_spec(task_defaults.TaskDefaultsSpec, v, True))
     if model_cls == 'TaskSpec':
         return obs_task(base.instantiate_spec(tasks.TaskSpec, v, True))
+    if model_cls == 'ActionSpec':
+        from mistral.lang.v2 import actions
+        return obs_action(base.instantiate_spec(actions.ActionSpec, v, True))
+    if model_cls == 'ActionListSpec':
+        from mistral.lang.v2 import actions
+        spec = actions.ActionListSpec(v, True)
+        return {a.get_name(): obs_action(a) for a in spec.get_actions()}
+    if model_cls == 'WorkbookSpec':
+        from mistral.lang.v2 import workbook
+        spec = base.instantiate_spec(workbook.WorkbookSpec, v, True)
+        acts = spec.get_actions()
+        wfs = spec.get_workflows()
+        return {'name': spec.get_name(),
+                'actions': None if acts is None else {k: obs_action(acts[k]) for k in acts.item_keys()},
+                'workflows': None if wfs is None else {k: obs_workflow(wfs[k]) for k in wfs.item_keys()}}
     if model_cls == 'WorkflowSpec':
         # instantiate_spec up to the constructor, then the name check only (graph checks: Model/Lang.lean)
         exc = st['exc']
@@ -251,6 +274,9 @@ def run(ctx, st, recs, budget):
             agree = (mkind == rkind) or (mkind == 'ok' and rkind == 'def')
             if mkind == 'ok' and rkind == 'def':
                 ctx.count('ctor', 'list-rejected-by-graph-or-later-checks')
+        elif mcls in GRAPH_LATER and mkind == 'ok' and rkind == 'def':
+            agree = True
+            ctx.count('ctor', 'list-rejected-by-graph-or-later-checks')
         elif mkind == 'ok' and rkind == 'ok':
             agree = canon_t(mo['ok']) == real['ok']
         else:
